@@ -172,7 +172,7 @@ func (m *model) Init(dir string) error {
 }
 
 func (m *model) Actions() []string {
-	a := []string{"user-new", "bug-new", "comment", "title", "status", "label", "select", "deselect", "push", "pull", "rm", "attach", "peer-edit", "bridge", "gql", "ls", "wipe", "ls-linked", "session-config"}
+	a := []string{"user-new", "bug-new", "comment", "title", "status", "label", "select", "deselect", "push", "pull", "rm", "attach", "peer-edit", "bridge", "gql", "ls", "wipe", "ls-linked", "session-config", "auth-nohome"}
 	if m.p.Alphabet == "thorough" {
 		return append(a, "attach2", "comment-edit", "show", "user-ls", "label-ls")
 	}
